@@ -366,9 +366,16 @@ def _strip(interp, s, chars, left, right):
         raise Unsupported('strip() of Unicode white space (bounded stand-in only)')
     if isinstance(chars, Sym) or not chars:
         raise Unsupported('strip with symbolic character set')
+    # strip is a function: the same operation on the same term gives the same pieces (so that a clause
+    # that strips again talks about the string the code computed)
+    memo = st.ghost.setdefault('__strip_memo__', {})
+    key = (t.sexpr(), chars, left, right)
+    if key in memo:
+        return wrap(memo[key])
     cls = _char_class_re(chars)
     lens = []
     a, m, b = decompose(interp, t, [None, None, None], 'strip')
+    memo[key] = m
     if left:
         st.assume(z3.InRe(a, cls))
         st.assume(z3.And(*[z3.Not(z3.PrefixOf(z3.StringVal(c), m)) for c in chars]))
